@@ -101,17 +101,22 @@ func (m *Mutation) BlockMutated(bcoord dvid.IZYXString, block interface{}) error
 func (m *Mutation) Execute() error {
 	timedLog := dvid.NewTimeLog()
 	m.Lock()
+	defer m.Unlock()
 	bm := m.hiresCache
 	var err error
 	for scale := uint8(0); scale < m.d.GetMaxDownresLevel(); scale++ {
 		bm, err = m.d.StoreDownres(m.v, scale, bm)
 		if err != nil {
+			// release the remaining scales so the instance does not report itself as updating forever
+			for s := scale; s < m.d.GetMaxDownresLevel(); s++ {
+				m.d.StopScaleUpdate(s + 1)
+			}
+			m.hiresCache = nil
 			return fmt.Errorf("mutation %d for data %q: %v", m.mutID, m.d.DataName(), err)
 		}
 		m.d.StopScaleUpdate(scale + 1)
 	}
 	m.hiresCache = nil
-	m.Unlock()
 	timedLog.Debugf("Computed and stored downres for scale 1 to %d for data %q", m.d.GetMaxDownresLevel(), m.d.DataName())
 	return nil
 }
